@@ -74,6 +74,7 @@
 #include <opm/common/OpmLog/LogUtil.hpp>
 
 #include <algorithm>
+#include <chrono>
 #include <filesystem>
 #include <iostream>
 #include <memory>
@@ -277,6 +278,7 @@ struct Gen {
     std::vector<std::string> actionNames;
     std::map<std::string, std::pair<int, int>> heads;
     bool anyHeadChanged = false;          // then COMPDAT never defaults I,J (outside the model)
+    std::set<std::string> connected;      // wells a COMPDAT record named explicitly (they very likely have connections)
     std::vector<std::string> lists;       // well lists created so far
     int y = 2015, m = 1, d = 1;
     std::map<std::string, long>* stats = nullptr;
@@ -288,13 +290,13 @@ struct Gen {
     }
     std::string wellPat(bool allowQ = false) {
         if (allowQ && r.coin(1, 2)) return "?";
-        if (!allowQ && r.coin(1, 70)) return r.coin() ? "P9" : "NOPE";       // usually unknown -> input error
+        if (!allowQ && r.coin(1, 140)) return r.coin() ? "P9" : "NOPE";       // usually unknown -> input error
         int c = r.range(0, 9);
         if (c == 0 && has('P')) return "P*";
         if (c == 1 && has('I')) return "I*";
         if (c == 2 && !wells.empty()) return "*";
         if (c == 3 && rich2 && !lists.empty() && r.coin(2, 3)) return r.coin(1, 8) ? std::string("*L*") : r.pick(lists);
-        if (c == 3 && rich2 && r.coin(1, 12)) return "*L3";
+        if (c == 3 && rich2 && r.coin(1, 40)) return "*L3";
         if (wells.empty()) return "P1";
         return r.pick(wells);
     }
@@ -334,7 +336,7 @@ struct Gen {
             std::string grp = r.coin(1, 90) ? "FIELD" : "G" + std::to_string(r.range(1, 4));
             const bool existing = heads.count(name) > 0;
             if (!existing) heads[name] = { r.range(1, 6), r.range(1, 6) };
-            else if (rich2 && r.coin(1, 5)) { heads[name] = { r.range(1, 6), r.range(1, 6) }; anyHeadChanged = true; }   // head change (refused while the well has no connections)
+            else if (rich2 && r.coin(1, connected.count(name) ? 4 : 40)) { heads[name] = { r.range(1, 6), r.range(1, 6) }; anyHeadChanged = true; }   // head change (refused while the well has no connections)
             std::string hi = std::to_string(heads[name].first), hj = std::to_string(heads[name].second);
             if (existing && rich2 && r.coin(1, 6)) { if (r.coin()) hi = "*"; else hj = "*"; }
             k.recs.push_back({ name, grp, hi, hj });
@@ -351,6 +353,7 @@ struct Gen {
             bool dflt = r.coin(1, 2) && !allowQ && !anyHeadChanged;      // defaulted I,J are rejected inside ACTIONX
             k.recs.push_back({ allowQ ? wellPat(true) : wellPat(), dflt ? "0" : std::to_string(r.range(1, 6)), dflt ? "0" : std::to_string(r.range(1, 6)),
                                std::to_string(k1), std::to_string(k2), r.coin(3, 4) ? "OPEN" : (r.coin(3, 4) ? "SHUT" : "AUTO") });
+            if (!allowQ) connected.insert(k.recs.back()[0]);
         }
         return k;
     }
@@ -487,7 +490,7 @@ struct Gen {
                 static const std::vector<std::string> fe = { "FOPR * 2", "FWPR + FOPR", "( FOPR - 1 ) * 3", "( FOPR + FWPR ) / 2" };
                 static const std::vector<std::string> we = { "WOPR * 2", "WWPR + WOPR", "WOPR 'P1' * 2", "SUM ( WOPR ) + WWPR" };
                 k.recs.push_back({ "DEFINE", qn, wellVar ? r.pick(we) : r.pick(fe), "?" });
-            } else k.recs.push_back({ "UNITS", qn, r.coin(3, 4) ? "'SM3/DAY'" : "'BARSA'", "" });
+            } else k.recs.push_back({ "UNITS", qn, (r.coin(1, 12) ? wellVar : !wellVar) ? "'SM3/DAY'" : "'BARSA'", "" });
         }
         for (auto& rec : k.recs) {
             if (rec[0] == "DEFINE") {
@@ -618,7 +621,16 @@ struct Gen {
         std::string name = std::string("ACT") + actionRole + std::to_string(r.range(1, 2));
         out.push_back(KwIR{ "ACTIONX", { { name } }, "" });
         int n = r.range(1, 3);
-        for (int i = 0; i < n; ++i) out.push_back(ordinary(true));
+        for (int i = 0; i < n; ++i) {
+            if (extras && r.coin(1, 5)) {
+                const std::string w = wells.empty() ? "P1" : r.pick(wells);
+                static const std::vector<std::string> tm = { "ORAT", "WRAT", "LRAT", "BHP", "RESV" };
+                if (r.coin(2, 3)) out.push_back(KwIR{ "WTMULT", {}, "WTMULT\n '" + w + "' " + r.pick(tm) + " " + (r.coin() ? "0.5" : "1.25") + " /\n/\n" });
+                else out.push_back(KwIR{ "WELPI", {}, "WELPI\n '" + w + "' " + std::to_string(r.range(5, 40)) + " /\n/\n" });
+                continue;
+            }
+            out.push_back(ordinary(true));
+        }
         out.push_back(KwIR{ "ENDACTIO", {}, "" });
         if (std::find(actionNames.begin(), actionNames.end(), name) == actionNames.end()) actionNames.push_back(name);
     }
@@ -833,6 +845,33 @@ std::string dumpBlocks(const Deck& deck, std::time_t start) {
     }
 }
 
+// the block structure of a restarted run (types, start/end times, keyword names)
+std::string dumpBlocksR(const Deck& deck, std::time_t start, const ScheduleRestartInfo& ri) {
+    try {
+        ScheduleDeck sd(TimeService::from_time_t(start), deck, ri);
+        std::ostringstream o;
+        o << sd.size() << "|";
+        for (size_t i = 0; i < sd.size(); ++i) {
+            const auto t = sd[i].time_type();
+            o << (i ? "," : "") << (t == ScheduleTimeType::START ? "START" : t == ScheduleTimeType::DATES ? "DATES" : t == ScheduleTimeType::TSTEP ? "TSTEP" : "RESTART");
+        }
+        o << "|";
+        for (size_t i = 0; i < sd.size(); ++i) o << (i ? "," : "") << TimeService::to_time_t(sd[i].start_time());
+        o << "|";
+        for (size_t i = 0; i < sd.size(); ++i) {
+            o << (i ? "," : "");
+            if (sd[i].end_time().has_value()) o << TimeService::to_time_t(*sd[i].end_time()); else o << "-";
+        }
+        for (size_t i = 0; i < sd.size(); ++i) {
+            o << "|";
+            for (size_t j = 0; j < sd[i].size(); ++j) o << (j ? "," : "") << sd[i][j].name();
+        }
+        return o.str();
+    } catch (...) {
+        return "err";
+    }
+}
+
 std::string constsEnc() {
     const auto us = UnitSystem::newMETRIC();
     const double bpSI = UnitSystem::newMETRIC().to_si(UnitSystem::measure::pressure, ParserKeywords::WCONPROD::BHP::defaultValue.get<double>());
@@ -857,7 +896,7 @@ int corr(uint64_t seed, const std::string& tier, const std::string& outdir) {
     vh::Sink sink(outdir);
     vh::Rng rng(seed);
     const std::string consts = constsEnc();
-    const int N = tierN(tier, 220, 2500);
+    const int N = tierN(tier, 360, 3000);
     for (int it = 0; it < N; ++it) {
         Gen g{ rng, false, it % 4 == 3 };
         auto ks = g.schedule(rng.range(1, it % 10 == 0 ? 12 : 6));
@@ -869,8 +908,40 @@ int corr(uint64_t seed, const std::string& tier, const std::string& outdir) {
         const std::string bl = dumpBlocks(deck, 1420070400);
         sink.emit("sched.blocks " + std::string(START_ENC) + " " + enc, bl);
         sink.count(bl == "err" ? "blocks-err" : "blocks-ok");
+        if (bl != "err") {
+            // restarted runs: restart at the start of a block of the full deck (sometimes off by a second), with and without SKIPREST;
+            // without SKIPREST the deck is (usually) only the part after the restart date
+            ScheduleDeck full(TimeService::from_time_t(1420070400), deck, ScheduleRestartInfo{});
+            for (int rr = 0; rr < 2 && full.size() > 1; ++rr) {
+                const size_t rs = 1 + rng.below(full.size() - 1);
+                ScheduleRestartInfo ri;
+                ri.report_step = rs;
+                ri.time = TimeService::to_time_t(full[rs].start_time()) + (rng.coin(1, 8) ? (rng.coin() ? 1 : -86400) : 0);
+                ri.skiprest = rr == 0 ? true : rng.coin(1, 3);
+                std::vector<KwIR> part = ks;
+                if (!ri.skiprest && rng.coin(4, 5)) {
+                    size_t steps = 0, i = 0;
+                    for (; i < ks.size() && steps < rs; ++i) steps += ks[i].nsteps();
+                    if (steps == rs) part.assign(ks.begin() + i, ks.end());
+                }
+                Deck pd;
+                try { pd = parseText(deckOf(part)); } catch (...) { continue; }
+                const std::string rb = dumpBlocksR(pd, 1420070400, ri);
+                sink.emit("sched.rblocks " + std::string(START_ENC) + " " + std::to_string(ri.report_step) + " " + std::to_string((long) ri.time) + " " + (ri.skiprest ? "1" : "0") + " " + encSched(part), rb);
+                sink.count(rb == "err" ? "rblocks-err" : (ri.skiprest ? "rblocks-skiprest-ok" : "rblocks-ok"));
+            }
+        }
         Real r = build(dp);
         sink.count(r.ok ? "schedule-ok" : "schedule-err");
+        if (!r.ok && std::getenv("SCHED_ERRSTAT")) {        // debugging aid: which keyword makes the schedule fail first
+            for (size_t cut = 1; cut <= ks.size(); ++cut) {
+                std::vector<KwIR> pre(ks.begin(), ks.begin() + cut);
+                bool inAct = false; for (auto& k : pre) { if (k.name == "ACTIONX") inAct = true; if (k.name == "ENDACTIO") inAct = false; }
+                if (inAct) continue;
+                Real pr; try { pr = build(std::make_shared<Deck>(parseText(deckOf(pre)))); } catch (...) {}
+                if (!pr.ok) { sink.count("err-at." + ks[cut - 1].name); break; }
+            }
+        }
         size_t n = 1; for (auto& k : ks) n += k.nsteps();
         if (r.ok) { n = r.sched->size(); sink.count("steps", (long) n); }
         for (auto& k : ks) sink.count("kw." + k.name);
@@ -981,15 +1052,48 @@ void compareStates(vh::PropLog& log, const std::string& key, const Schedule& a, 
     }
 }
 
-void propDeck(vh::PropLog& log, const std::string& label, std::shared_ptr<Deck> deck, std::map<std::string, long>& stats, size_t maxCuts) {
+// all shipped decks (*.DATA below the repository), sorted
+std::vector<std::string> shippedDecks(const std::string& root) {
+    std::vector<std::string> out;
+    for (const char* sub : { "tests", "python" }) {
+        std::error_code ec;
+        for (fs::recursive_directory_iterator it(root + "/" + sub, ec), end; !ec && it != end; it.increment(ec))
+            if (it->is_regular_file() && it->path().extension() == ".DATA") out.push_back(fs::relative(it->path(), root).string());
+    }
+    std::sort(out.begin(), out.end());
+    return out;
+}
+
+std::shared_ptr<Deck> parseShipped(const std::string& path) {
+    Parser parser; ParseContext pc; ErrorGuard eg;
+    pc.update(InputErrorAction::IGNORE);
+    auto deck = std::make_shared<Deck>(parser.parseFile(path, pc, eg));
+    eg.clear();
+    return deck;
+}
+
+double secondsSince(const std::chrono::steady_clock::time_point& t0) { return std::chrono::duration<double>(std::chrono::steady_clock::now() - t0).count(); }
+
+// truncation at (up to maxCuts, chosen by rng when there are more) cut points; with otherTail also one "other tail" per deck:
+// the keywords after a cut with a random half of the non-time keywords removed
+void propDeck(vh::PropLog& log, const std::string& label, std::shared_ptr<Deck> deck, std::map<std::string, long>& stats, size_t maxCuts,
+              vh::Rng* rng = nullptr, bool otherTail = false) {
     Real full;
     std::unique_ptr<EclipseState> es;
     try { es = std::make_unique<EclipseState>(*deck); } catch (...) { stats["eclipsestate-failed"]++; return; }
     full = build(deck, es.get());
     stats[full.ok ? "full-ok" : "full-err"]++;
     auto cuts = cutsOf(*deck);
-    size_t stride = cuts.size() > maxCuts ? (cuts.size() + maxCuts - 1) / maxCuts : 1;
-    for (size_t ci = 0; ci < cuts.size(); ci += stride) {
+    std::vector<size_t> chosen;
+    if (rng && cuts.size() > maxCuts) {
+        std::set<size_t> pick;
+        while (pick.size() < maxCuts) pick.insert(rng->below(cuts.size()));
+        chosen.assign(pick.begin(), pick.end());
+    } else {
+        size_t stride = cuts.size() > maxCuts ? (cuts.size() + maxCuts - 1) / maxCuts : 1;
+        for (size_t ci = 0; ci < cuts.size(); ci += stride) chosen.push_back(ci);
+    }
+    for (size_t ci : chosen) {
         auto td = std::make_shared<Deck>(*deck);
         if (cuts[ci].deckIndexAfter < td->size()) td->remove_keywords((int) cuts[ci].deckIndexAfter, (int) td->size());
         Real tr = build(td, es.get());
@@ -999,13 +1103,26 @@ void propDeck(vh::PropLog& log, const std::string& label, std::shared_ptr<Deck> 
         if (!full.ok) { stats[tr.ok ? "full-err-trunc-ok" : "full-err-trunc-err"]++; log.ok(); continue; }
         compareStates(log, key, *full.sched, *tr.sched, cuts[ci].stepsClosed - 1);
     }
+    if (otherTail && rng && full.ok && !cuts.empty()) {
+        const size_t ci = rng->below(cuts.size());
+        auto od = std::make_shared<Deck>(*deck);
+        // walk the tail backwards so that indices stay valid
+        for (size_t i = od->size(); i-- > cuts[ci].deckIndexAfter; ) {
+            const std::string& n = (*od)[i].name();
+            if (n == "DATES" || n == "TSTEP" || n == "END") continue;
+            if (rng->coin()) od->remove_keywords((int) i, (int) i + 1);
+        }
+        Real orr = build(od, es.get());
+        stats[orr.ok ? "shipped-other-tail" : "shipped-other-tail-err"]++;
+        if (orr.ok) compareStates(log, label + "#tail" + std::to_string(cuts[ci].stepsClosed), *full.sched, *orr.sched, cuts[ci].stepsClosed - 1);
+    }
 }
 
 int prop(uint64_t seed, const std::string& tier, const std::string& outdir) {
     vh::PropLog log(outdir + "/prop.txt");
     std::map<std::string, long> stats;
     vh::Rng rng(seed * 7919 + 17);
-    const int N = tierN(tier, 90, 900);
+    const int N = tierN(tier, 150, 1200);
     for (int it = 0; it < N; ++it) {
         Gen g{ rng, true, it % 3 == 0 };
         int nsteps = rng.range(2, it % 10 == 0 ? 10 : 5);
@@ -1028,32 +1145,25 @@ int prop(uint64_t seed, const std::string& tier, const std::string& outdir) {
             stats["other-tail"]++;
             const long before = log.failed;
             if (a.ok && b.ok) compareStates(log, label + "#tail" + std::to_string(stepsClosed), *a.sched, *b.sched, stepsClosed - 1, false);
-            if (log.failed != before && std::getenv("SCHED_DEBUG")) { vh::spit("/tmp/sched_fail_a.DATA", deckOf(ks)); vh::spit("/tmp/sched_fail_b.DATA", deckOf(alt)); }
             else stats["other-tail-err"]++;
+            if (log.failed != before && std::getenv("SCHED_DEBUG")) { vh::spit("/tmp/sched_fail_a.DATA", deckOf(ks)); vh::spit("/tmp/sched_fail_b.DATA", deckOf(alt)); }
         }
     }
-    // shipped decks
+    // shipped decks: every *.DATA of the repository that loads offline, in a seed-dependent order, within a time box
     const char* repo = std::getenv("VERIF_REPO");
     const std::string root = repo ? repo : "/repo";
-    std::vector<std::string> shipped = { "tests/SPE1CASE1.DATA", "tests/SPE1CASE2.DATA", "tests/ACTIONX_M1.DATA", "tests/MSW.DATA", "tests/UDQ_ACTIONX.DATA", "tests/TEST_WLIST.DATA" };
-    if (tier == "thorough") {
-        for (const char* x : { "tests/2_WLIFT_MODEL5_NOINC.DATA", "tests/5_NETWORK_MODEL5_STDW_NETBAL_PACK.DATA", "tests/9_4C_WINJ_GINJ_UDQ_MSW-UDARATE_TEST_PACK.DATA",
-                               "tests/0A4_GRCTRL_LRAT_LRAT_GGR_BASE_MODEL2_MSW_ALL.DATA", "tests/ACTIONX_M1_MULTIPLE.DATA", "tests/SPE1CASE1B.DATA", "tests/MSW_2WELSEGS.DATA",
-                               "tests/TEST_NETWORK_ALL.DATA", "tests/UDQ_ACTIONX_TEST1.DATA", "tests/SUMMARY_EFF_FAC.DATA", "tests/TEST_AGGREGATE_MSW.DATA", "tests/BASE_SIM.DATA",
-                               "tests/SPE1CASE1_WELTRAJ.DATA", "tests/SOFR_TEST.DATA", "tests/MOD4_TEST_IGRP-DATA.DATA" })
-            shipped.push_back(x);
-    }
+    auto shipped = shippedDecks(root);
+    for (size_t i = shipped.size(); i > 1; --i) std::swap(shipped[i - 1], shipped[rng.below(i)]);
+    const double budget = tier == "thorough" ? 420.0 : 55.0;
+    const auto t0 = std::chrono::steady_clock::now();
     for (auto& rel : shipped) {
+        if (secondsSince(t0) > budget) { stats["shipped-skipped-time-box"]++; continue; }
         std::shared_ptr<Deck> deck;
-        try {
-            Parser parser; ParseContext pc; ErrorGuard eg;
-            pc.update(InputErrorAction::IGNORE);
-            deck = std::make_shared<Deck>(parser.parseFile(root + "/" + rel, pc, eg));
-            eg.clear();
-        } catch (...) { stats["shipped-parse-failed"]++; continue; }
+        try { deck = parseShipped(root + "/" + rel); } catch (...) { stats["shipped-parse-failed"]++; continue; }
         stats["shipped"]++;
-        propDeck(log, rel, deck, stats, tier == "thorough" ? 40 : 8);
+        propDeck(log, rel, deck, stats, tier == "thorough" ? 40 : 6, &rng, true);
     }
+    stats["shipped-seconds"] = (long) secondsSince(t0);
     std::ofstream f(outdir + "/prop_stats.json");
     f << "{\n  \"checked\": " << log.checked << ",\n  \"failed\": " << log.failed;
     for (auto& kv : stats) f << ",\n  \"" << kv.first << "\": " << kv.second;
@@ -1065,6 +1175,14 @@ int prop(uint64_t seed, const std::string& tier, const std::string& outdir) {
 // C04
 
 struct App { size_t n; std::string action; std::vector<std::string> wells; };
+
+// the observation record without its marker part (M:...) — the action event marker is the allowed difference at step n
+std::string stripMarker(const std::string& x) {
+    const auto p = x.rfind(";M:");
+    if (p == std::string::npos) return x;
+    const auto q2 = x.find(";L:", p);
+    return x.substr(0, p) + (q2 == std::string::npos ? std::string() : x.substr(q2));
+}
 
 std::string encApps(const std::vector<App>& apps) {
     std::string s;
@@ -1101,7 +1219,9 @@ bool applyReal(Schedule& s, const std::vector<App>& apps) {
         for (auto& a : apps) {
             const Action::ActionX act = s[a.n].actions()[a.action];      // copy: the snapshots are resized
             const auto res = Action::Result{ true }.wells(a.wells);
-            s.applyAction(a.n, act, res.matches(), std::unordered_map<std::string, double>{});
+            std::unordered_map<std::string, double> wellpi;            // the simulator's current PI of every well (needed by WELPI bodies only)
+            for (const auto& w : s.wellNames(a.n)) wellpi[w] = 1.0;
+            s.applyAction(a.n, act, res.matches(), wellpi);
         }
         return true;
     } catch (...) { return false; }
@@ -1111,7 +1231,7 @@ int acorr(uint64_t seed, const std::string& tier, const std::string& outdir) {
     vh::Sink sink(outdir);
     vh::Rng rng(seed * 31 + 5);
     const std::string consts = constsEnc();
-    const int N = tierN(tier, 260, 2500);
+    const int N = tierN(tier, 420, 3000);
     for (int it = 0; it < N; ++it) {
         Gen g{ rng, false, true };
         auto ks = g.schedule(rng.range(2, 6));
@@ -1158,7 +1278,7 @@ int aprop(uint64_t seed, const std::string& tier, const std::string& outdir) {
     vh::PropLog log(outdir + "/prop.txt");
     std::map<std::string, long> stats;
     vh::Rng rng(seed * 131 + 3);
-    const int N = tierN(tier, 200, 2000);
+    const int N = tierN(tier, 320, 2500);
     for (int it = 0; it < N; ++it) {
         Gen g{ rng, it % 2 == 0, true };
         auto ks = g.schedule(rng.range(2, 6));
@@ -1194,7 +1314,7 @@ int aprop(uint64_t seed, const std::string& tier, const std::string& outdir) {
             for (const auto& w : now.sched->wellNames(a.n)) if (std::find(a.wells.begin(), a.wells.end(), w) != a.wells.end()) sorted.push_back(w);
             std::vector<KwIR> body(cur.begin() + bodyStart, cur.begin() + bodyEnd);
             // the property's per-step exception: keywords that shut/open connections (automatic shut-in) and WPIMULT (accumulation)
-            for (auto& b : body) if (b.name == "COMPDAT" || b.name == "WPIMULT" || (b.name == "WELOPEN" && [&] { for (auto& r : b.recs) if (r.size() > 2) return true; return false; }())) perStep = true;
+            for (auto& b : body) if (b.name == "COMPDAT" || b.name == "WPIMULT" || b.name == "WELPI" || (b.name == "WELOPEN" && [&] { for (auto& r : b.recs) if (r.size() > 2) return true; return false; }())) perStep = true;
             auto sb = substBody(body, sorted);
             cur.insert(cur.begin() + insertAt, sb.begin(), sb.end());
         }
@@ -1203,6 +1323,8 @@ int aprop(uint64_t seed, const std::string& tier, const std::string& outdir) {
         Real inlined = build(std::make_shared<Deck>(parseText(deckOf(cur))));
         stats[okA ? "apply-ok" : "apply-err"]++;
         stats[perStep ? "with-connection-keywords" : "admissible-body"]++;
+        for (auto& a : apps) for (size_t i = 0; i < ks.size(); ++i) if (ks[i].name == "ACTIONX" && ks[i].recs[0][0] == a.action)
+            for (size_t j = i + 1; j < ks.size() && ks[j].name != "ENDACTIO"; ++j) stats["body." + ks[j].name]++;
         const std::string key = "act" + std::to_string(seed) + "." + std::to_string(it);
         if (okA != inlined.ok) {
             if (perStep) { stats["perstep-outcome-differs"]++; continue; }
@@ -1217,7 +1339,7 @@ int aprop(uint64_t seed, const std::string& tier, const std::string& outdir) {
         for (size_t k = 0; k < A.size(); ++k) {
             std::string da = dumpState(A, k), db = dumpState(B, k);
             // strip the marker line (M:...) — the action event marker is the allowed difference
-            auto strip = [](std::string s) { auto p = s.rfind(";M:"); return p == std::string::npos ? s : s.substr(0, p); };
+            auto strip = stripMarker;
             if (k < first) {
                 // the past: untouched, compared against the schedule before any application
                 std::string d0 = dumpState(*base.sched, k);
@@ -1232,6 +1354,81 @@ int aprop(uint64_t seed, const std::string& tier, const std::string& outdir) {
             if (strip(da) != strip(db)) { log.fail(key, "state " + std::to_string(k) + " differs from inlined deck: " + firstDiff(strip(da), strip(db)) + " apps=" + encApps(apps)); break; }
             log.ok();
         }
+    }
+    // shipped decks with ACTIONX: real applyAction vs the Deck with the action's keywords inserted verbatim at the end of block n
+    {
+        const char* repo = std::getenv("VERIF_REPO");
+        const std::string root = repo ? repo : "/repo";
+        auto shipped = shippedDecks(root);
+        for (size_t i = shipped.size(); i > 1; --i) std::swap(shipped[i - 1], shipped[rng.below(i)]);
+        const double budget = tier == "thorough" ? 300.0 : 45.0;
+        const auto t0 = std::chrono::steady_clock::now();
+        static const std::set<std::string> comparable = { "WELOPEN", "WCONPROD", "WCONINJE", "WELTARG", "WEFAC", "GCONPROD", "GCONINJE", "GRUPTREE", "WTMULT", "WECON", "WTEST",
+                                                          "WLIST", "NEXTSTEP", "NEXT", "UDQ", "COMPLUMP", "GLIFTOPT", "WGRUPCON", "GRUPTARG", "GCONSUMP" };
+        for (auto& rel : shipped) {
+            if (secondsSince(t0) > budget) { stats["shipped-skipped-time-box"]++; continue; }
+            std::shared_ptr<Deck> deck;
+            std::unique_ptr<EclipseState> es;
+            try { deck = parseShipped(root + "/" + rel); es = std::make_unique<EclipseState>(*deck); } catch (...) { continue; }
+            Real base = build(deck, es.get());
+            if (!base.ok) continue;
+            std::vector<std::pair<size_t, std::string>> cands;
+            for (size_t n = 0; n < base.sched->size(); ++n) for (const auto& act : (*base.sched)[n].actions()) cands.push_back({ n, act.name() });
+            if (cands.empty()) continue;
+            stats["shipped-with-actions"]++;
+            const auto cuts = cutsOf(*deck);
+            const int tries = tier == "thorough" ? 12 : 4;
+            for (int t = 0; t < tries; ++t) {
+                const auto c = cands[rng.below(cands.size())];
+                const size_t n = c.first;
+                const Action::ActionX act = (*base.sched)[n].actions()[c.second];
+                // position of the end of block n in the deck
+                long insertAt = -1; size_t before = 0;
+                for (auto& cu : cuts) { if (before == n) { insertAt = (long) cu.deckIndexAfter - 1; break; } if (cu.stepsClosed > n) break; before = cu.stepsClosed; }
+                if (insertAt < 0 && before == n) insertAt = (long) deck->size();
+                if (insertAt < 0) { stats["shipped-inline-not-expressible"]++; continue; }
+                bool hasQ = false, perStep = false;
+                for (const auto& kw : act) {
+                    if (!comparable.count(kw.name())) perStep = true;
+                    for (const auto& rec : kw) {
+                        if (rec.size() > 0 && rec.getItem(0).getType() == type_tag::string && rec.getItem(0).hasValue(0) && rec.getItem(0).getTrimmedString(0) == "?") hasQ = true;
+                        if (kw.name() == "WELOPEN") for (size_t i = 2; i < rec.size(); ++i) if (!rec.getItem(i).defaultApplied(0)) perStep = true;
+                    }
+                }
+                App app{ n, c.second, {} };
+                if (!hasQ) for (const auto& w : base.sched->wellNames(n)) if (rng.coin(1, 3)) app.wells.push_back(w);   // '?' bodies: no matching wells, so verbatim inlining is exact
+                Real applied = build(deck, es.get());
+                const bool okA = applyReal(*applied.sched, { app });
+                auto id = std::make_shared<Deck>(*deck);
+                if ((size_t) insertAt < id->size()) id->remove_keywords((int) insertAt, (int) id->size());
+                for (const auto& kw : act) id->addKeyword(kw);
+                for (size_t i = (size_t) insertAt; i < deck->size(); ++i) id->addKeyword((*deck)[i]);
+                Real inlined = build(id, es.get());
+                stats[okA ? "shipped-apply-ok" : "shipped-apply-err"]++;
+                stats[perStep ? "shipped-per-step-body" : "shipped-admissible-body"]++;
+                const std::string key = rel + "#" + c.second + "@" + std::to_string(n);
+                if (okA != inlined.ok) {
+                    if (perStep) { stats["shipped-perstep-outcome-differs"]++; continue; }
+                    log.fail(key, std::string("applyAction ") + (okA ? "succeeds" : "throws") + " but the inlined deck " + (inlined.ok ? "is accepted" : "throws"));
+                    continue;
+                }
+                if (!okA) { log.ok(); continue; }
+                const Schedule& A = *applied.sched; const Schedule& B = *inlined.sched;
+                if (A.size() != B.size()) { log.fail(key, "sizes differ"); continue; }
+                auto strip = stripMarker;
+                for (size_t k = 0; k < A.size(); ++k) {
+                    const std::string da = dumpState(A, k), db = dumpState(B, k);
+                    if (k < n) {
+                        if (!(A[k] == (*base.sched)[k]) || da != dumpState(*base.sched, k)) { log.fail(key, "state " + std::to_string(k) + " before the action step changed"); break; }
+                        log.ok(); continue;
+                    }
+                    if (perStep) { if (strip(da) != strip(db)) stats["shipped-perstep-state-differs"]++; continue; }
+                    if (strip(da) != strip(db) || !wellsGroupsEquivalent(A, B, k)) { log.fail(key, "state " + std::to_string(k) + " differs from inlined deck: " + firstDiff(strip(da), strip(db))); break; }
+                    log.ok();
+                }
+            }
+        }
+        stats["shipped-seconds"] = (long) secondsSince(t0);
     }
     // ACTIONX with WELPI (run-time productivity-index scaling): states before the action step must stay
     {
@@ -1283,6 +1480,26 @@ int main(int argc, char** argv) {
         std::cout << dumpBlocks(*deck, 1420070400) << "\n";
         if (!r.ok) { std::cout << "err\n"; return 0; }
         for (size_t k = 0; k < r.sched->size(); ++k) std::cout << k << " " << dumpState(*r.sched, k) << "\n";
+        return 0;
+    }
+    if (argc >= 3 && std::string(argv[1]) == "probe") {     // load time / size of a shipped deck
+        for (int i = 2; i < argc; ++i) {
+            const auto t0 = std::chrono::steady_clock::now();
+            std::string res = "parse-failed"; size_t steps = 0, nact = 0;
+            try {
+                Parser parser; ParseContext pc; ErrorGuard eg;
+                pc.update(InputErrorAction::IGNORE);
+                auto deck = std::make_shared<Deck>(parser.parseFile(argv[i], pc, eg));
+                eg.clear();
+                res = "es-failed";
+                EclipseState es(*deck);
+                res = "sched-failed";
+                Real r = build(deck, &es);
+                if (r.ok) { res = "ok"; steps = r.sched->size(); for (size_t k = 0; k < steps; ++k) nact = std::max(nact, (*r.sched)[k].actions().ecl_size()); }
+            } catch (...) {}
+            const double dt = std::chrono::duration<double>(std::chrono::steady_clock::now() - t0).count();
+            std::cout << argv[i] << " " << res << " steps=" << steps << " actions=" << nact << " t=" << dt << "\n";
+        }
         return 0;
     }
     if (argc >= 3 && std::string(argv[1]) == "gen") {       // print a generated deck + encoding
